@@ -94,7 +94,7 @@ func inHEIF(c *Ctx, tiff []byte, extra bool) []byte {
 func runExifProps(c *Ctx, which string) error {
 	c.Res.Rule = map[string]string{
 		"C03": "generated logical records (random subsets of the supported fields, random in-range values) x forward layouts (block order, padding, header gap, shuffled entries, interleaved foreign tags embedded and out-of-line, camera-style and shuffled value order) x both byte orders, through exif2.Parse, imagemeta.Decode and the buffered reader variant: reported fields must equal the record (search); the same inputs and a malformed stream of their mutations against the Lean reader model (correspondence). Non-trivial: records with >= 5 fields; distinct by bytes.",
-		"C06": "the same Exif payload embedded in TIFF, JPEG APP1, PNG eXIf and HEIF-branded files with random surrounding content: fields of Decode / DecodeJPEG / DecodePng / DecodeHeif must equal those of the bare TIFF decode (only the image type differs).",
+		"C06": "the same Exif payload embedded in TIFF, JPEG APP1, PNG eXIf, HEIF-branded files and (split into its three directories) the CMT1/CMT2/CMT4 boxes of a Canon CR3 file with random surrounding content: fields of Decode / DecodeJPEG / DecodePng / DecodeHeif / DecodeCR3 must equal those of the bare TIFF decode (only the image type differs).",
 		"C07": "paired little- and big-endian encodings of the same record and layout, in every container: identical results.",
 	}[which]
 	type gcase struct {
@@ -172,6 +172,11 @@ func runExifProps(c *Ctx, which string) error {
 				}
 				eh, _ := finishModel(expectedRaw(g.r, 6))
 				addEp("Decode", inHEIF(c, b, extra), eh, "heif", base)
+				// Canon CR3: the three directories in CMT1 / CMT2 / CMT4 boxes, read through the ISOBMFF reader
+				ec, _ := finishModel(expectedRaw(g.r, 15))
+				cr3 := inCR3(c, g.r, oi == 1)
+				addEp("DecodeCR3", cr3, ec, "cr3", base)
+				addEp("Decode", cr3, ec, "cr3", base)
 			}
 		}
 		if which == "C07" {
@@ -268,7 +273,8 @@ func runExifProps(c *Ctx, which string) error {
 		}
 		if j.pair >= 0 {
 			other := canonOf(answers[j.pair])
-			if stripIt(other) != stripIt(got) {
+			// (the CameraModel enum depends on the order in which Make and Model values are stored: not compared, see C03)
+			if stripKey(stripIt(other), "cmodel") != stripKey(stripIt(got), "cmodel") {
 				c.Violate(Case{Entry: j.entry, Input: j.req, Expected: stripIt(other), Actual: stripIt(got), Kind: "wrong-value", Class: "pair-differs:" + j.tag + ":" + diffClass(other, got, "")})
 			}
 		}
